@@ -760,6 +760,22 @@ def make_mutations(rng, cfg, H, per_class):
         out.append(dict(cls="text_for_number", site="/".join(map(str, path)) + "#%d" % j, text=render(t),
                         what="%s %s -> %s" % (n.key, v[:60], nv[:60]),
                         key="text_for_number:%s:%s" % (shape, KW.get(n.key.lower(), n.key))))
+    # 5b. a number immediately followed by other characters (no blank in between): the token is not a number
+    for n, path, level, parent, v, ms in rng.sample(cands, min(per_class, len(cands))):
+        t = [x.clone() for x in tree]
+        j = rng.randrange(len(ms))
+        suf = rng.choice(["x", "d0", ".5.", "e", "_A", "q"])
+        nv = v[:ms[j].end()] + suf + v[ms[j].end():]
+        if NUM_RE.fullmatch(v[ms[j].start():ms[j].end()] + suf):
+            continue
+        node_at(t, path).atoms = atomize(nv)
+        natoms = len(n.atoms)
+        intuple = "(" in v
+        shape = ("tuple_component" if intuple else "scalar" if natoms == 1 else
+                 "list_first" if j == 0 else "list_later")
+        out.append(dict(cls="text_for_number", site="/".join(map(str, path)) + "#%dg" % j, text=render(t),
+                        what="%s %s -> %s" % (n.key, v[:60], nv[:60]),
+                        key="text_glued_to_number:%s:%s" % (shape, KW.get(n.key.lower(), n.key))))
     scal = [c for c in cands if len(c[0].atoms) == 1 and len(c[0].atoms[0]) == 1]
     for n, path, level, parent, v, ms in rng.sample(scal, min(1, len(scal))):
         t = [x.clone() for x in tree]
